@@ -32,9 +32,12 @@ COMPONENTS_STUB_EXTRA = ["OpenTelemetry tracer (in-memory recorder at bluesky.ru
 valid_case = generic.valid_case
 
 
-def _segments(pg, key, rng):
+def _segments(pg, key, rng, monitor=False):
     S = pg.S
     segs = [[msg(S, "open_run", None, run=key)]]
+    if monitor and pg.signals:
+        # left installed: close_run itself has to remove it (and may fail doing so)
+        segs.append([msg(S, "monitor", pg.signals[0], run=key, name=f"{pg.signals[0]}_monitor")])
     for _ in range(rng.choice([0, 1, 2])):
         segs.append(pg.point(run=key, stream="primary", checkpoint=0.7, move=0.3, devices=pg.dets[:1], also_read=[]))
     return segs
@@ -43,7 +46,8 @@ def _segments(pg, key, rng):
 def build_plan(rng, specs):
     pg = gen.PlanGen(rng, specs, sites=SiteCounter())
     keys = rng.choice([[None], ["A", "B"], ["A", "B"], [None, "B"], ["A", "B", "C"]])
-    per = {k: _segments(pg, k, rng) for k in keys}
+    mon = rng.choice(keys) if rng.random() < 0.5 else "-"
+    per = {k: _segments(pg, k, rng, monitor=(k == mon)) for k in keys}
     closes = {k: [msg(pg.S, "close_run", None, run=k)] for k in keys}
     left_open = {k for k in keys if rng.random() < 0.25}
     # random merge preserving each run's own order
@@ -87,6 +91,7 @@ def cases(seed, tier):
             c["script"][ci]["decisions"] = [{"do": rng.choice(gen.DECISIONS)} for _ in range(3)]
         c["script"][ci]["settle"] = rng.choice(["idle", 0, 1, "idle"])
         yield c
+    yield from generic.engine_side_cases(rng, base, dv, k=3)
 
 
 def check(res):
